@@ -460,3 +460,92 @@ Proof.
   assert (Hd : dgetq m k - dgetq s k == 0) by (apply Qle_antisym; assumption).
   assert (E : dgetq m k == dgetq m k - dgetq s k + dgetq s k) by ring. rewrite E, Hd. ring.
 Qed.
+
+(* ---------- weighted sums over a dict ---------- *)
+Definition wsum (f : key -> Q) (m : list (key * Q)) : Q := qsum (map (fun kv => f (fst kv) * snd kv) m).
+
+Lemma wsum_cons f k v m : wsum f ((k, v) :: m) == f k * v + wsum f m.
+Proof. reflexivity. Qed.
+
+Lemma dadd_wsum f m k q : wsum f (dadd m k q) == wsum f m + f k * q.
+Proof.
+  induction m as [|[k0 v] m IH]; cbn [dadd].
+  - rewrite wsum_cons. unfold wsum at 1 2. cbn [map qsum]. rewrite Qred_correct. ring.
+  - destruct (keqb_spec k k0) as [->|Hne].
+    + rewrite !wsum_cons, Qred_correct. ring.
+    + rewrite !wsum_cons, IH. ring.
+Qed.
+
+Lemma dacc_wsum f l m : wsum f (dacc m l) == wsum f m + wsum f l.
+Proof.
+  revert m. induction l as [|[k0 q] l IH]; intros m; cbn [dacc fold_left fst snd].
+  - unfold wsum at 3. cbn [map qsum]. ring.
+  - fold (dacc (dadd m k0 q) l). rewrite IH, dadd_wsum, wsum_cons. ring.
+Qed.
+
+(* ---------- dset / dupdate ---------- *)
+Lemma dset_keys m k q k' : In k' (dkeys (dset m k q)) <-> In k' (dkeys m) \/ k' = k.
+Proof.
+  induction m as [|[k0 v] m IH]; cbn.
+  - split; [intros [H|H]; [right; congruence|destruct H]|intros [H| ->]; [destruct H|left; reflexivity]].
+  - destruct (keqb_spec k k0) as [->|Hne]; cbn.
+    + split; [tauto|]. intros [H| ->]; [exact H|left; reflexivity].
+    + unfold dkeys in IH. rewrite IH. tauto.
+Qed.
+
+Lemma dset_NoDup m k q : NoDup (dkeys m) -> NoDup (dkeys (dset m k q)).
+Proof.
+  induction m as [|[k0 v] m IH]; cbn; intros Hnd.
+  - constructor; [intros []|constructor].
+  - inversion Hnd as [|? ? Hnin Hnd']; subst.
+    destruct (keqb_spec k k0) as [->|Hne]; cbn.
+    + constructor; assumption.
+    + constructor; [|apply IH; exact Hnd'].
+      intros H. apply (dset_keys m k q k0) in H. destruct H as [H|H]; [contradiction|congruence].
+Qed.
+
+Lemma dset_Forall (R : key * Q -> Prop) m k q : Forall R m -> R (k, q) -> Forall R (dset m k q).
+Proof.
+  induction m as [|[k0 v] m IH]; cbn; intros HF HR.
+  - constructor; [exact HR|constructor].
+  - inversion HF; subst. destruct (keqb_spec k k0) as [->|Hne]; constructor; auto.
+Qed.
+
+Lemma dupdate_keys m2 m k : In k (dkeys (dupdate m m2)) <-> In k (dkeys m) \/ In k (dkeys m2).
+Proof.
+  revert m. induction m2 as [|[k0 q] m2 IH]; intros m; cbn [dupdate fold_left fst snd].
+  - cbn. tauto.
+  - fold (dupdate (dset m k0 q) m2). rewrite IH, dset_keys. cbn. intuition congruence.
+Qed.
+
+Lemma dupdate_NoDup m2 m : NoDup (dkeys m) -> NoDup (dkeys (dupdate m m2)).
+Proof.
+  revert m. induction m2 as [|[k0 q] m2 IH]; intros m H; cbn [dupdate fold_left fst snd]; [exact H|].
+  apply IH. apply dset_NoDup. exact H.
+Qed.
+
+Lemma dupdate_Forall (R : key * Q -> Prop) m2 m : Forall R m -> Forall R m2 -> Forall R (dupdate m m2).
+Proof.
+  revert m. induction m2 as [|[k0 q] m2 IH]; intros m H1 H2; cbn [dupdate fold_left fst snd]; [exact H1|].
+  inversion H2; subst. apply IH; [apply dset_Forall; assumption|assumption].
+Qed.
+
+(* a dict all of whose entries carry the value of a function of the key *)
+Lemma Forall_dgetq (F : key -> Q) m k :
+  Forall (fun kv => snd kv == F (fst kv)) m -> In k (dkeys m) -> dgetq m k == F k.
+Proof.
+  intros HF HI. unfold dgetq. destruct (dget m k) as [v|] eqn:E.
+  - apply dget_In in E. rewrite Forall_forall in HF. apply (HF (k, v) E).
+  - apply dget_None in E. contradiction.
+Qed.
+
+Lemma Forall_dvals (F : key -> Q) m :
+  Forall (fun kv => snd kv == F (fst kv)) m -> qsum (dvals m) == qsum (map F (dkeys m)).
+Proof.
+  unfold dvals, dkeys. induction 1 as [|[k v] m H _ IH]; [reflexivity|]. cbn [map qsum fst snd] in *.
+  rewrite H, IH. reflexivity.
+Qed.
+
+Lemma qsum_map_set_eq {A} (f : A -> Q) l1 l2 :
+  NoDup l1 -> NoDup l2 -> (forall x, In x l1 <-> In x l2) -> qsum (map f l1) == qsum (map f l2).
+Proof. intros H1 H2 H. apply qsum_map_perm. apply NoDup_Permutation; assumption. Qed.
